@@ -68,6 +68,79 @@ def check_flags(ctx, prog, lr):
                     'and decides on a rule set without registered defaults'
                     % U(v))
     ctx.floor('C20.FLAGS', n, 1, 'writes of the load switch')
+    check_gates(ctx, prog, lr)
+
+
+def check_gates(ctx, prog, lr):
+    """(1) An enforcement call skips its load step (including the merge of
+    registered defaults) only because the load switch is off - never because
+    another call is loading, or because of some other state.  (2) No state
+    flag that gates a step writing the shared stores is lowered during the
+    reload: a concurrent call would skip that step while it is under way."""
+    from ..load_model import load_table, classify_event
+    t = load_table(ctx)
+    F = ctx.where(lr.module, lr.node).split(':')[0]
+    WRITES = ('MAIN', 'DIR', 'MERGE', 'RESET-RULES', 'RESET-FILE')
+
+    def merge_loop(p):
+        return any(e.kind == 'iter' and 'self.registered_rules' in U(
+            t.expand(e.node)) for e in p.events)
+    bad = None
+    n = 0
+    for p in t.paths:
+        if p.outcome.kind == 'raise' or merge_loop(p):
+            continue
+        n += 1
+        off = any(c.kind == 'test' and not c.pol and U(c.expr) ==
+                  'self.use_conf' for c in p.conds)
+        if not off and bad is None:
+            bad = p
+    ctx.ob('C20.LOAD-STEP', bad is None, '%s:%d' % (F, bad.outcome.line)
+           if bad else ctx.where(lr.module, lr.node), lr.qual,
+           'paths that skip the load step (%d)' % n,
+           'the load step is skipped only when the load switch use_conf is '
+           'off' if bad is None else
+           'a call can return from load_rules without loading or merging '
+           'anything although the load switch is on (path: %s): while '
+           'another call rebuilds the stores this one decides on whatever '
+           'is there at that moment' % (bad.cond_text()[-200:] or 'always'))
+    # (2) gating flags
+    gates = {}
+    for p in t.paths:
+        kinds = [(classify_event(t, e), e) for e in p.events]
+        for ci, c in enumerate(p.conds):
+            if c.kind != 'test' or not isinstance(c.expr, ast.Attribute):
+                continue
+            a = U(c.expr)
+            if not a.startswith('self.') or a in ('self.use_conf',
+                                                  'self.policy_path',
+                                                  'self.overwrite',
+                                                  'self.rules'):
+                continue
+            after = [k for k, e in kinds if k in WRITES
+                     and e.nconds > ci]
+            g = gates.setdefault(a, {'on': False, 'off': False,
+                                     'lowered': None})
+            if c.pol and after:
+                g['on'] = True
+            if not c.pol and not after:
+                g['off'] = True
+        for e in p.events:
+            if e.kind == 'store' and isinstance(e.node, ast.Attribute):
+                a = U(e.node)
+                from ..paths import const_truth
+                if const_truth(t.expand(e.value)) is False and a in gates:
+                    gates[a]['lowered'] = gates[a]['lowered'] or e
+    for a, g in sorted(gates.items()):
+        if g['on'] and g['off'] and g['lowered'] is not None:
+            e = g['lowered']
+            ctx.ob('C20.FLAGS', False, '%s:%d' % (F, e.line),
+                   e.frame or lr.qual, '%s = %s' % (a, U(t.expand(e.value))),
+                   'the flag %s gates a step that writes the shared rule '
+                   'stores and is lowered during the reload: a concurrent '
+                   'enforcement call sees it lowered, skips that step and '
+                   'decides on a store the first call has not finished '
+                   'rebuilding' % a)
 
 
 def check(ctx):
@@ -148,41 +221,47 @@ def check(ctx):
     ctx.extra['reader_sites'] = len(readers)
     locks = {w[4] for w in writes} | {r[2] for r in readers}
     all_locked = None not in locks and len(locks) == 1
-    # group writes per (function, store, kind)
+    # group writes per (store, kind) over the whole reload region: a write
+    # that moves into a helper stays the same finding, a write that is added
+    # changes the count and with it the key
     groups = {}
     for f, store, kind, e, lock in writes:
-        groups.setdefault((f.qual, store, kind), []).append((f, e, lock))
+        groups.setdefault((store, kind), []).append((f, e, lock))
     # discipline (a): per store exactly one rebind in the whole region, of a
     # local object, and no in-place write at all
     per_store = {}
-    for (q, store, kind), lst in groups.items():
-        per_store.setdefault(store, []).append((q, kind, lst))
+    for (store, kind), lst in groups.items():
+        per_store.setdefault(store, []).append((kind, lst))
     for store, items in sorted(per_store.items()):
-        inplace = [i for i in items if i[1] != 'rebind']
-        rebinds = [i for i in items if i[1] == 'rebind']
-        nreb = sum(len(i[2]) for i in rebinds)
+        inplace = [i for i in items if i[0] != 'rebind']
+        rebinds = [i for i in items if i[0] == 'rebind']
+        nreb = sum(len(i[1]) for i in rebinds)
         swap_ok = not inplace and nreb <= 1
         if swap_ok or all_locked:
-            for q, kind, lst in items:
+            for kind, lst in items:
                 f, e, lock = lst[0]
-                ctx.ob('C20.PUBLISH', True, ctx.where(f.module, e.node), q,
+                ctx.ob('C20.PUBLISH', True, ctx.where(f.module, e.node), ENF,
                        '%s %s' % (kind, store),
                        'published by copy-then-swap' if swap_ok else
                        'writers and readers share the lock %s' % lock)
             continue
-        for q, kind, lst in sorted(items):
+        for kind, lst in sorted(items):
+            lst = sorted(lst, key=lambda x: (x[0].qual, getattr(
+                x[1].node, 'lineno', 0)))
             f, e, lock = lst[0]
-            ctx.ob('C20.PUBLISH', False, ctx.where(f.module, e.node), q,
+            ctx.ob('C20.PUBLISH', False, ctx.where(f.module, e.node), ENF,
                    '%s %s x%d' % (kind, store, len(lst)),
                    'the shared store %s is %s without a common lock and not '
                    'as a single swap of a completely built object: a '
-                   'concurrent decision can see a half-rebuilt rule set' % (
-                       store, {'rebind': 'rebound (one of several writes '
-                               'during one reload)',
+                   'concurrent decision can see a half-rebuilt rule set '
+                   '(in %s)' % (
+                       store, {'rebind': 'rebound (%d writes during one '
+                               'reload)' % len(lst),
                                'insert': 'filled in place entry by entry'
-                               }.get(kind, 'mutated in place (%s)' % kind)),
-                   witness={'sites': [getattr(x[1].node, 'lineno', None)
-                                      for x in lst]})
+                               }.get(kind, 'mutated in place (%s)' % kind),
+                       ', '.join(sorted({x[0].name for x in lst}))),
+                   witness={'sites': ['%s:%s' % (x[0].name, getattr(
+                       x[1].node, 'lineno', None)) for x in lst]})
     check_flags(ctx, prog, lr)
     for f, n, lock in readers:
         ctx.sample('reader %s %s:%d %s' % (f.qual, f.module.path.split(
